@@ -33,8 +33,8 @@ type E1Op struct {
 	Carrier string `json:"carrier,omitempty"` // write: message carrier
 	Poison  bool   `json:"poison,omitempty"`  // overwrite the caller's buffer right after the call returns
 	N       int    `json:"n,omitempty"`
-	Text    string `json:"text,omitempty"`  // feed: the bytes to deliver (instead of N filler bytes)
-	Empty   bool   `json:"empty,omitempty"` // readfrom: the source returns (0, nil) before every fragment
+	Text    string `json:"text,omitempty"`    // feed: the bytes to deliver (instead of N filler bytes)
+	Empty   bool   `json:"empty,omitempty"`   // readfrom: the source returns (0, nil) before every fragment
 	EOFData bool   `json:"eofdata,omitempty"` // readfrom: the source returns its last fragment together with io.EOF
 	Pausing bool   `json:"pausing,omitempty"` // readfrom: every Read of the source is a yield point (a source may block)
 }
